@@ -79,10 +79,14 @@ def rearm (i : Inst) (k : Nat) : Inst := { i with running := true, stopAt := i.e
 
 /-! ### several coexisting model instances -/
 
+/-- the program sets `running = False` itself -/
+def halt (i : Inst) : Inst := { i with running := false }
+
 inductive Op where
   | step (i : Nat) (args : List Int)
   | run (i : Nat) (fuel : Nat)
   | rearm (i : Nat) (k : Nat)
+  | halt (i : Nat)
 deriving Repr, DecidableEq
 
 def apply (w : List Inst) : Op → List Inst
@@ -91,6 +95,7 @@ def apply (w : List Inst) : Op → List Inst
     | some x => (match runModel fuel x with | some (x', _) => w.set i x' | none => w)
     | none => w
   | .rearm i k => match w[i]? with | some x => w.set i (rearm x k) | none => w
+  | .halt i => match w[i]? with | some x => w.set i (halt x) | none => w
 
 def run (w : List Inst) (ops : List Op) : List Inst := ops.foldl apply w
 
